@@ -72,7 +72,7 @@ def _anonymize(lines, salt, undo=False, nonl=False):
     return out.split("\n")[:-1] if out.endswith("\n") else out.split("\n"), list(records)
 
 
-def _positional(line, spans, values, out, form, classes, ln):
+def _positional(line, spans, values, out, form, classes, ln, other_out=None):
     """None if every slot was replaced with the surrounding text kept; else (kind, detail)."""
     if form.mode in ("scrub", "either") and S.SCRUB in out:
         rest = out.replace(S.SCRUB, " ")
@@ -101,7 +101,10 @@ def _positional(line, spans, values, out, form, classes, ln):
         r = out[pos_o:j]
         if r == v or r == "":
             return "secret-kept", "%r -> %r" % (line, out)
-        if len(v) >= 6 and v in r:
+        # (a secret that happens to be spelled by the pseudonym itself - 'Remove' in 'netconanRemoved1', a cut
+        # $9$ string that is the head of every $9$ pseudonym under this salt - also occurs in the output of the
+        # other instantiation, which does not hold this secret: no evidence that anything was kept)
+        if len(v) >= 6 and v in r and not (other_out is not None and v in other_out):
             return "secret-inside-replacement", "%r -> %r" % (line, out)
         pos_o = j
         pos_i = b
@@ -154,7 +157,8 @@ def check_run(case, ev):
         for i, ((line, spans, values, ln), out) in enumerate(zip(inst[k], outs)):
             form = S.FORM_BY_ID[ln["form"]]
             shift = len(line) - len(line.lstrip())
-            bad = _positional(line.strip(), [(a - shift, b - shift) for a, b in spans], values, out.strip(), form, classes, ln)
+            other_out = res[1 - k][0][i] if i < len(res[1 - k][0]) and values != inst[1 - k][i][2] else None
+            bad = _positional(line.strip(), [(a - shift, b - shift) for a, b in spans], values, out.strip(), form, classes, ln, other_out)
             if bad is not None:
                 return Finding("pos/%s:%s" % (bad[0], describe(i)), bad[1], case)
     # secrets must not be logged
